@@ -61,6 +61,29 @@ var replayCases = []replayCase{
 		pap(pB, 2, radAccept), sf(kIPCPAck, pB, 2), sf(kLCPTerm, pA, 1), sf(kIP, pB, 2)}}, ""},
 	{"ok-foreign-inert", caseSpec{Radius: radNone, Pool: pool28, Steps: []step{padr(pA), sf(kLCPEcho, pB, 1), sf(kIP, pB, 1), sf(kLCPNak, pB, 1), sf(kCHAPResp, pB, 1),
 		{Kind: kPAPMalformed, Src: pB, SID: 1, Variant: 2}, sf(kPADT, pB, 9)}}, ""},
+
+	// discovery stage (seeded change C04-E and its family).  Clean on a correct tree: the sessions of A stay exactly as
+	// they are, B gets sessions of its own.  The signature is what a tree shows that treats a PADR / PADI as a reference
+	// to an existing session by Host-Uniq or AC-Cookie without comparing the MAC.
+	{"ok-disc-foreign-padr-same-hostuniq", caseSpec{Radius: radNone, Pool: pool28, Steps: []step{xPADI(pA), xPADR(pA), sf(kLCPAck, pA, 1), pap(pA, 1, radAccept), sf(kIPCPAck, pA, 1),
+		xPADI(pB), xPADR(pB), sf(kIP, pA, 1)}}, "C04/foreign-mac/padr/changed"},
+	{"ok-disc-foreign-padr-same-hostuniq-fresh", caseSpec{Radius: radNone, Pool: pool28, Steps: []step{xPADI(pA), xPADR(pA), xPADR(pB)}}, "C04/foreign-mac/padr/pads-names-session"},
+	{"ok-disc-foreign-padr-all-tags", caseSpec{Radius: radLive, Pool: pool28, Steps: []step{xPADI(pA), xPADR(pA), pap(pA, 1, radAccept),
+		{Kind: kPADRCopy, Src: pB, SID: 1}, sf(kIPCPAck, pA, 1), {Kind: kPADRCopy, Src: pC, SID: 1}}}, "C04/foreign-mac/padr/changed"},
+	{"ok-disc-foreign-padr-cookie-of-owner", caseSpec{Radius: radNone, Pool: pool28, Steps: []step{xPADI(pA), xPADR(pA), sf(kLCPAck, pA, 1),
+		{Kind: kPADR, Src: pB, Ident: 9, Tags: discTags{HU: huLegacy, Cookie: ckOther, Peer: pA}}}}, "C04/foreign-mac/padr/changed"},
+	{"ok-disc-foreign-padi-same-hostuniq", caseSpec{Radius: radNone, Pool: pool28, Steps: []step{xPADI(pA), xPADR(pA), xPADI(pB),
+		{Kind: kPADIFlood, Src: pB, SID: 1, Variant: 40}, xPADR(pB), sf(kLCPAck, pA, 1)}}, "C04/foreign-mac/padi/terminated"},
+	{"ok-disc-owner-padr-retransmission", caseSpec{Radius: radNone, Pool: pool28, Steps: []step{xPADI(pA), xPADR(pA), {Kind: kPADRCopy, Src: pA, SID: 1}, pap(pA, 1, radAccept),
+		{Kind: kPADRCopy, Src: pA, SID: 1}, sf(kIPCPAck, pA, 1), {Kind: kPADRCopy, Src: pA, SID: 1}, sf(kIPCPAck, pA, 2), sf(kIPCPAck, pA, 4), sf(kIP, pA, 1)}}, ""},
+}
+
+// xPADI / xPADR: discovery frames with the Host-Uniq value every peer uses (pid 1234), cookie = the one offered to the sender
+func xPADI(p int) step {
+	return step{Kind: kPADI, Src: p, Ident: 7, Tags: discTags{HU: huShared1, Cookie: ckOwn}}
+}
+func xPADR(p int) step {
+	return step{Kind: kPADR, Src: p, Ident: 7, Tags: discTags{HU: huShared1, Cookie: ckOwn}}
 }
 
 func TestReplayKnown(t *testing.T) {
@@ -80,6 +103,9 @@ func TestReplayKnown(t *testing.T) {
 			if rc.expect == "" {
 				if rc.name == "ok-full-no-radius" && (res.established != 1 || res.serverIPCPOK == 0) {
 					t.Fatalf("INCONCLUSIVE: control %s did not reach Established (%d) / server IPCP ack (%d); trace:\n%s", rc.name, res.established, res.serverIPCPOK, strings.Join(res.trace, "\n"))
+				}
+				if strings.HasPrefix(rc.name, "ok-disc-") && (res.maxSessions < 2 || rc.name == "ok-disc-foreign-padr-same-hostuniq" && res.established != 1) {
+					t.Fatalf("INCONCLUSIVE: control %s: %d sessions at most, %d established: the discovery frames no longer open sessions; trace:\n%s", rc.name, res.maxSessions, res.established, strings.Join(res.trace, "\n"))
 				}
 				if rc.name == "ok-full-radius" && res.established != 2 {
 					t.Fatalf("INCONCLUSIVE: control %s: %d sessions established, want 2; trace:\n%s", rc.name, res.established, strings.Join(res.trace, "\n"))
